@@ -63,8 +63,20 @@ pub fn expand_self<T: VisitableMut + Clone>(input: &T, to: &Type) -> T {
                 && path.segments[0].ident == "Self"
                 && path.segments[0].arguments.is_none()
             {
-                let rest = path.segments.iter().skip(1).cloned().collect();
-                path.segments = rest;
+                let rest = path.segments.iter().skip(1).cloned();
+                if let Type::Path(syn::TypePath { qself: None, path: to }) = self.to {
+                    // `Ty::<T>::N` (not `<Ty<T>>::N`: a where-clause cannot start with that)
+                    let mut head = to.clone();
+                    for s in head.segments.iter_mut() {
+                        if let syn::PathArguments::AngleBracketed(a) = &mut s.arguments {
+                            a.colon2_token = Some(Default::default());
+                        }
+                    }
+                    head.segments.extend(rest);
+                    *path = head;
+                    return;
+                }
+                path.segments = rest.collect();
                 path.leading_colon = Some(Default::default());
                 *qself = Some(syn::QSelf {
                     lt_token: Default::default(),
